@@ -25,6 +25,7 @@ CLAIMED = {
         "generated.",
         "Coq proof (BFS = reachability, checks = WellFormed) + exhaustive/random differential correspondence",
         "DESIGN.md 5 C09",
+        "Also generated since round 8: the only event of a class declared with the empty id.  "
         "Compared observable is accepted-silently / accepted-with-UserWarning / InvalidDefinition (message wording "
         "is not part of the property).",
     ),
@@ -43,7 +44,8 @@ ENG_TIE = ("Tied to /repo by the shared engine-family correspondence: seeded ran
            "TransitionNotAllowed, return values that are exception objects or equal to everything, callbacks "
            "handing back awaitables that are no coroutine objects, class-object and proxy listeners, callback "
            "names that are state ids, a model recording every write of its state field, callbacks that assign the state "
-           "themselves through current_state_value (C01-C04), constructor options passed positionally, options changed "
+           "themselves through current_state_value (C01-C04), constructor options passed positionally, rtc=0, a start_value "
+           "that is no state value over a stored state, user callback names with a leading underscore, options changed "
            "after construction, a base class used before its subclass exists, and fixed probe "
            "families (DESIGN.md 4). ")
 
@@ -174,6 +176,7 @@ CLAIMED["C08"] = (
     "unknown names must raise InvalidDefinition at StateMachine().",
     "Coq proof (guard conjunction; build_expression = Python evaluation) + three-way differential correspondence (library / model / CPython eval)",
     "DESIGN.md 5 C08",
+    "The textual model (Replace.v) is Unicode-aware for the letters of Latin-1 (texts with non-ASCII identifiers).  "
     "Partial: CPython's parser / precedence on the rewritten text is validated by the three-way "
     "correspondence, not proved.  Several guard entries per transition and both engines are "
     "generated; on the async engine bare-name guards may hand back __await__ objects / resolved Futures.  Three genuine defects repaired (fix: 6fb3a72, fix: 198c81d, fix: c06e898 executor key ignored "
@@ -194,6 +197,7 @@ CLAIMED["C10"] = (
     "compared in coqc with the model.",
     "Coq proof (storage bijection, exactly-one-active, setter validation, start selection) + differential correspondence",
     "DESIGN.md 5 C10",
+    "Also generated: a model that compares equal to None, unmapped tuples of length 1-3 among the invalid values.  "
     "Django-style persistent models are not generated (a property-backed field stands for them); enum members are; "
     "callbacks of external and internal transitions (both engines) that write the field, and states sharing a display "
     "name, are.  Two genuine defects repaired "
@@ -213,7 +217,8 @@ CLAIMED["C13"] = (
     "second instance are passed to send() of the first (they must be looked up by name on the receiver).",
     "Coq proof (allowed_events exact and duplicate-free, unknown event frame) + differential correspondence + attribute probe",
     "DESIGN.md 5 C13",
-    "events (all declared events) is compared through the styles only.  One genuine defect repaired (fix: e53a549).")
+    "events (all declared events) is compared through the styles only; send() with a member of a str-based Enum is one "
+    "of the styles.  One genuine defect repaired (fix: e53a549).")
 
 CLAIMED["C18"] = (
     "Theorems (Properties/C18.v): the graph has exactly one node per state plus the initial pseudo-node with "
@@ -379,7 +384,8 @@ CLAIMED["C15"] = (
     "event by event (also rendered by the correspondence).",
     "Coq proof (creation-order semantics of the declaration styles; behaviour depends only on per-state transition lists) + pairwise differential correspondence of renderings",
     "DESIGN.md 5 C15",
-    "Partial: decorator styles, States / enum / inheritance / Event-object styles are "
+    "Also rendered: one from_.any() declaration under two event names (D28, a regression of the repair d0fdccb, "
+    "repaired: fix: 65106b9).  Partial: decorator styles, States / enum / inheritance / Event-object styles are "
     "covered by the correspondence only (the Coq model covers the transition-creating and event-attaching calls).  One "
     "genuine defect repaired (fix: 414111d, from_.any() deep-copied callbacks given as bound methods together with their object).")
 
